@@ -249,6 +249,48 @@ def run(ctx):
             fails.append({"why": "EOS %s: energy error %.3g (uninterrupted) / %.3g (synchronized every 10 steps), final states differ by %.3g"
                           % (phi0, res[0][0], res[1][0], dd), "integrator": "eos", "options": {"phi0": phi0, "phi1": "lf8", "n": 4, "safe_mode": 0},
                           "N": 4, "seed_case": seed_, "steps": 300})
+    # one simulation object, several integrators in turn (state left behind by the previous integrator must not leak into
+    # the next one): the invariants hold across the switches at the level of the coarsest scheme involved
+    switch_seqs = [("whfast", "ias15", "whfast"), ("whfast", "leapfrog", "whfast"), ("mercurius", "leapfrog", "mercurius"),
+                   ("mercurius", "whfast", "ias15"), ("saba", "eos", "saba"), ("trace", "whfast", "trace"), ("ias15", "saba", "bs"),
+                   ("whfast:jacobi", "whfast:barycentric", "whfast:democraticheliocentric"), ("eos", "whfast", "leapfrog"),
+                   ("leapfrog", "mercurius", "trace")]
+    ebounds = {"leapfrog": 5e-3, "whfast": 1e-4, "ias15": 1e-9, "mercurius": 1e-4, "saba": 1e-5, "eos": 5e-3, "trace": 1e-4, "bs": 1e-5}
+    for seq in switch_seqs[:ctx.scale(len(switch_seqs), len(switch_seqs))]:
+        sim = rand_system(rebound, rng, rng.choice([3, 4]))
+        P_orb = 2 * math.pi * math.sqrt(1.6 ** 3 / sim.G)
+        sim.dt = P_orb / rng.choice([87, 113])
+        E0 = sim.energy(); P0, L0 = exact_PL(sim)
+        Pscale = max(p.m * (abs(p.vx) + abs(p.vy) + abs(p.vz)) for p in sim.particles); Lscale = max(abs(v) for v in L0) or 1.0
+        emax = 0.0; exc = None
+        with warnings.catch_warnings():
+            warnings.simplefilter("ignore")
+            try:
+                for name in seq:
+                    integ, _, coords = name.partition(":")
+                    sim.integrator = integ
+                    if coords: sim.ri_whfast.coordinates = coords
+                    elif integ == "whfast": sim.ri_whfast.coordinates = "jacobi"
+                    sim.dt = abs(sim.dt)
+                    for s_ in range(60):
+                        sim.step()
+                        if s_ % 20 == 19:
+                            sim.synchronize(); emax = max(emax, abs((sim.energy() - E0) / E0))
+                    sim.synchronize()
+            except Exception as ex:
+                exc = repr(ex)[:200]
+        ctx.case(key=("switch", seq))
+        bound = 20 * max(ebounds[n_.partition(":")[0]] for n_ in seq)
+        P1, L1 = exact_PL(sim)
+        dP = max(abs(a - b) for a, b in zip(P0, P1)) / Pscale
+        dL = max(abs(a - b) for a, b in zip(L0, L1)) / Lscale
+        why = None
+        if exc: why = "exception while switching integrators: " + exc
+        elif not (emax < bound): why = "relative energy error %.3g after switching integrators %s (bound %.1g)" % (emax, "->".join(seq), bound)
+        elif dP > 1e-11: why = "linear momentum drift %.3g after switching integrators %s" % (dP, "->".join(seq))
+        elif dL > (1e-11 if not any("barycentric" in n_ or n_ in ("bs", "janus", "mercurius", "trace") for n_ in seq) else 1e-5):
+            why = "angular momentum error %.3g after switching integrators %s" % (dL, "->".join(seq))
+        if why: fails.append({"why": why, "integrator": "->".join(seq), "N": sim.N, "dt": sim.dt, "G": sim.G})
     # merging collisions: mass, momentum, COM
     for rep in range(ctx.scale(10, 100)):
         sim = rebound.Simulation()
